@@ -784,11 +784,14 @@ impl AppState {
     pub async fn remove_db_api_key(&self, name: &str) -> Result<bool, ApiError> {
         let _guard = self.inner.lifecycle.lock().await;
         self.require_known_db(name).await?;
-        if self.db_api_key(name).is_none() {
-            return Ok(false);
-        }
+        let existed = self.db_api_key(name).is_some();
+        // Persist even when no binding is held in memory: an earlier
+        // `db.set_api_key` that failed with an unknown storage outcome was
+        // rolled back here but may have reached storage, and acknowledging
+        // this revocation without rewriting the map would let that key come
+        // back on the next restart.
         self.store_api_key(name, None).await?;
-        Ok(true)
+        Ok(existed)
     }
 
     /// Validates a binding request before it can have any effect.
